@@ -218,4 +218,103 @@ theorem loadDen_wfnShell (N : Nat → Label → Int) (hN : ∀ e l, N e l ≠ 0)
   unfold shellDen
   cases onShell s κ <;> simp
 
+/-! ### Molden: sorting (shell, block) pairs -/
+
+
+/-- denotation of a list of (shell, coefficient block) pairs -/
+def denPairs (cv : Cv) (ps : List (Shell × List Int)) (κ : PKey) : Int :=
+  (ps.map fun p => shellDen p.1 (cv p.1.key) p.2 κ).sum
+
+theorem den_eq_denPairs (cv : Cv) : ∀ (shells : List Shell) (coeffs : List Int) (κ : PKey),
+    den cv shells coeffs κ = denPairs cv (blocks cv shells coeffs) κ
+  | [], _, _ => by simp [den, blocks, denPairs]
+  | s :: ss, coeffs, κ => by
+    have ih := den_eq_denPairs cv ss (coeffs.drop (cv s.key).length) κ
+    simp only [den, blocks, denPairs, List.map_cons, List.sum_cons] at ih ⊢
+    rw [ih]
+
+theorem denPairs_insert (cv : Cv) (p : Shell × List Int) (κ : PKey) : ∀ (ps : List (Shell × List Int)),
+    denPairs cv (insertPair p ps) κ = shellDen p.1 (cv p.1.key) p.2 κ + denPairs cv ps κ
+  | [] => by simp [insertPair, denPairs]
+  | t :: ts => by
+    simp only [insertPair]
+    split
+    · simp [denPairs]
+    · have ih := denPairs_insert cv p κ ts
+      simp only [denPairs, List.map_cons, List.sum_cons] at ih ⊢
+      rw [ih]; omega
+
+theorem denPairs_sort (cv : Cv) (κ : PKey) : ∀ (ps : List (Shell × List Int)),
+    denPairs cv (sortPairs ps) κ = denPairs cv ps κ
+  | [] => rfl
+  | p :: ps => by
+    simp only [sortPairs, denPairs_insert, denPairs_sort cv κ ps]
+    simp [denPairs]
+
+def GoodBlocks (cv : Cv) (ps : List (Shell × List Int)) : Prop := ∀ p ∈ ps, p.2.length = (cv p.1.key).length
+
+theorem den_of_pairs (cv : Cv) : ∀ (ps : List (Shell × List Int)), GoodBlocks cv ps → ∀ κ,
+    den cv (ps.map (·.1)) (ps.flatMap (·.2)) κ = denPairs cv ps κ
+  | [], _, _ => by simp [den, denPairs]
+  | p :: ps, h, κ => by
+    have hp := h p (by simp)
+    have ih := den_of_pairs cv ps (fun q hq => h q (by simp [hq])) κ
+    simp only [List.map_cons, List.flatMap_cons, den, denPairs, List.sum_cons] at ih ⊢
+    rw [List.take_left' hp, List.drop_left' hp, ih]
+
+theorem mem_insertPair (p q : Shell × List Int) : ∀ (ps : List (Shell × List Int)),
+    q ∈ insertPair p ps → q = p ∨ q ∈ ps
+  | [], h => by simp [insertPair] at h; exact Or.inl h
+  | t :: ts, h => by
+    simp only [insertPair] at h
+    split at h
+    · simp at h; rcases h with h | h | h <;> simp [h]
+    · simp at h
+      rcases h with h | h
+      · simp [h]
+      · rcases mem_insertPair p q ts h with h' | h' <;> simp [h']
+
+theorem good_sort (cv : Cv) : ∀ (ps : List (Shell × List Int)), GoodBlocks cv ps → GoodBlocks cv (sortPairs ps)
+  | [], h => by intro q hq; simp [sortPairs] at hq
+  | p :: ps, h => by
+    intro q hq
+    simp only [sortPairs] at hq
+    rcases mem_insertPair p q _ hq with rfl | h'
+    · exact h _ (by simp)
+    · exact good_sort cv ps (fun r hr => h r (by simp [hr])) q h'
+
+theorem good_blocks_convert (cv1 cv2 : Cv) : ∀ (shells : List Shell) (coeffs : List Int),
+    GoodBlocks cv2 (blocks cv2 shells (convert cv1 cv2 shells coeffs))
+  | [], _ => by intro q hq; simp [blocks] at hq
+  | s :: ss, coeffs => by
+    have hlen : (apply (convFwd (cv1 s.key) (cv2 s.key)) (coeffs.take (cv1 s.key).length)).length
+        = (cv2 s.key).length := by simp
+    intro q hq
+    simp only [blocks, convert, List.take_left' hlen, List.drop_left' hlen, List.mem_cons] at hq
+    rcases hq with rfl | hq
+    · exact hlen
+    · exact good_blocks_convert cv1 cv2 ss _ q hq
+
+
+
+theorem map_fst_insertPair (p : Shell × List Int) : ∀ (ps : List (Shell × List Int)),
+    (insertPair p ps).map (·.1) = insertByCenter p.1 (ps.map (·.1))
+  | [] => rfl
+  | t :: ts => by
+    simp only [insertPair, List.map_cons, insertByCenter]
+    split
+    · simp
+    · simp [map_fst_insertPair p ts]
+
+theorem map_fst_sortPairs : ∀ (ps : List (Shell × List Int)),
+    (sortPairs ps).map (·.1) = sortByCenter (ps.map (·.1))
+  | [] => rfl
+  | p :: ps => by
+    simp only [sortPairs, List.map_cons, sortByCenter, map_fst_insertPair, map_fst_sortPairs ps]
+
+theorem map_fst_blocks (cv : Cv) : ∀ (shells : List Shell) (coeffs : List Int),
+    (blocks cv shells coeffs).map (·.1) = shells
+  | [], _ => rfl
+  | s :: ss, coeffs => by simp [blocks, map_fst_blocks cv ss]
+
 end Iodata.Wf
